@@ -233,7 +233,7 @@ type BlockInfo struct {
 
 type Analysis struct {
 	Blocks   []BlockInfo `json:"blocks"`
-	Trailing bool        `json:"trailing"` // bytes left after the last block (or no block at all in a non-empty input)
+	Trailing bool        `json:"trailing"` // non-blank bytes that do not decode are left after the last block (or instead of any block)
 	ChainOK  []int       `json:"chain_ok"` // public keys whose chain (keystore.FindChain) passes keystore.ValidateChain
 	Usable   []int       `json:"usable"`   // … and pkix.ValidateCertificate(digitalSignature) as jwtSigner.load does
 	Cyclic   bool        `json:"cyclic,omitempty"`
@@ -251,7 +251,8 @@ func Analyse(in *Interner, data []byte, password string) *Analysis {
 
 		b, rest = pem.Decode(rest)
 		if b == nil {
-			a.Trailing = true
+			// an undecodable rest; white space after the last block is not damage
+			a.Trailing = len(bytes.TrimSpace(rest)) != 0
 
 			break
 		}
